@@ -111,15 +111,21 @@ class BipLab(object):
         self.router = L.vlan.IPRouter()
         self.subnets = []
         self.nodes = []            # dict(kind, subnet, addr, bip, rec, mux)
+        def ip(si, h):
+            # subnets need not share one prefix length: a "wide" subnet is a /16
+            if layout["subnets"][si].get("wide"):
+                return "10.%d.0.%d/16" % (si + 1, h)
+            return "192.168.%d.%d/24" % (si + 1, h)
+        self.ip = ip
         for si, sn in enumerate(layout["subnets"]):
             net = L.vlan.IPNetwork("sub%d" % si)
-            self.router.add_network(L.Address("192.168.%d.1/24" % (si + 1)), net)
+            self.router.add_network(L.Address(ip(si, 1)), net)
             self.subnets.append(net)
         host = {}
 
         def new_addr(si):
             host[si] = host.get(si, 1) + 1
-            return L.Address("192.168.%d.%d/24" % (si + 1, host[si]))
+            return L.Address(ip(si, host[si]))
         # BBMDs first so that their addresses are known
         self.bbmd_of = {}
         for si, sn in enumerate(layout["subnets"]):
@@ -142,7 +148,7 @@ class BipLab(object):
                 if layout["mask"] == "two-hop":
                     entry = L.Address("%s/32:%d" % (a.addrTuple[0], a.addrTuple[1]))
                 else:
-                    entry = L.Address("%s/24:%d" % (a.addrTuple[0], a.addrTuple[1]))
+                    entry = L.Address("%s/%d:%d" % (a.addrTuple[0], 16 if layout["subnets"][p].get("wide") else 24, a.addrTuple[1]))
                 me["bip"].add_peer(entry)
             me["peers"] = peers
         # foreign devices
@@ -157,7 +163,7 @@ class BipLab(object):
             bip.register(self.nodes[self.bbmd_of[fd["bbmd"]]]["addr"], fd["ttl"])
         # a management station on subnet 0
         self.mgr = L.Manager()
-        self.mgr_addr = L.Address("192.168.1.250/24")
+        self.mgr_addr = L.Address(ip(0, 250))
         codec = L.BS.AnnexJCodec()
         self.mgr_mux = L.Mux(self.mgr_addr, self.subnets[0], self)
         L.bind(self.mgr, codec, self.mgr_mux)
@@ -301,16 +307,45 @@ def run_timeline(layout, ops):
     for step in ops:
         k = step[0]
         try:
-            if k == "bc":
+            if k in ("bc", "bc-renewal"):
                 src = step[1] % len(lab.nodes)
                 tok_n[0] += 1
                 token = b"B%05d" % tok_n[0]
                 before = [len(n["rec"].got) for n in lab.nodes]
+                if k == "bc-renewal":
+                    # a broadcast sent in the very instant in which a foreign device renews its registration
+                    fl = sorted(f_ for f_ in fdm if healthy(f_))
+                    if not fl:
+                        continue
+                    fdn = fl[step[2] % len(fl)]
+                    a_ = lab.nodes[fdn]["addr"].addrTuple
+                    regs = [t for (t, s_, d_, data, lost) in lab.datagrams if s_ == a_ and len(data) == 6 and data[1] == 5]
+                    t_next = (regs[-1] if regs else 0.0) + fdm[fdn]["ttl"]
+                    if t_next <= VC.clk.now or t_next - VC.clk.now > 400:
+                        continue
+                    pre = dict((f_, fd_state(f_)) for f_ in fdm)
+                    from bacpypes.task import FunctionTask
+                    ft = FunctionTask(lab.broadcast, src, token)
+                    ft.install_task(when=t_next)
+                    lab.advance(t_next - VC.clk.now)
+                    VC.clk.now = t_next
+                    VC.settle()
+                    stats["at_renewal"] = stats.get("at_renewal", 0) + 1
                 must, either = expected(lab, src, fd_state, fd_send_state)
+                if k == "bc-renewal":
+                    # a device that was not being served just before this instant (deleted, not yet registered) and registers in it: either order
+                    for f_ in fdm:
+                        if pre[f_] != "yes" and f_ in must:
+                            must.discard(f_)
+                            either.add(f_)
+                    if lab.nodes[src]["kind"] == "foreign" and pre.get(src) != "yes":
+                        either |= must
+                        must = set()
                 for f_ in fdm:
                     stats["fd_" + fd_state(f_)] = stats.get("fd_" + fd_state(f_), 0) + 1
-                lab.broadcast(src, token)
-                VC.settle()
+                if k == "bc":
+                    lab.broadcast(src, token)
+                    VC.settle()
                 got = {}
                 for ni, n in enumerate(lab.nodes):
                     for (t, data, s, d) in n["rec"].got[before[ni]:]:
@@ -452,7 +487,7 @@ def judge(case):
             fails, stats = run_timeline(case["layout"], case["ops"])
     except Stall:
         return Verdict([("stall", "no return within 120 s")], True, ("stall",))
-    labels = [k for k in ("crossing", "fd_involved", "fd_yes", "fd_maybe", "fd_no") if stats.get(k)]
+    labels = [k for k in ("crossing", "fd_involved", "fd_yes", "fd_maybe", "fd_no", "at_renewal") if stats.get(k)]
     ops_seen = set(o[0] for o in case["ops"])
     labels += ["op:" + o for o in sorted(ops_seen & set(["cut", "unreg", "delete", "readfdt"]))]
     if case["layout"]["bdt"] != "full":
@@ -471,6 +506,9 @@ def layout_strategy():
     def build(t):
         subs, fds, mask, bdt_kind, pairs = t
         subnets = [dict(bbmd=b, simple=n) for b, n in subs]
+        for i_, sn_ in enumerate(subnets):
+            if (pairs[i_ % len(pairs)][0] if pairs else 0) % 3 == 1:
+                sn_["wide"] = True
         bb = [i for i, s in enumerate(subnets) if s["bbmd"]]
         nb = [i for i, s in enumerate(subnets) if not s["bbmd"]]
         if not bb:
@@ -500,7 +538,8 @@ def ops_strategy():
     from hypothesis import strategies as st
     bc = st.tuples(st.just("bc"), st.integers(0, 30)).map(list)
     adv = st.tuples(st.just("adv"), st.sampled_from([0.3, 0.5, 1.0, 1.5, 2.0, 4.0, 5.0, 5.5, 6.0, 29.0, 30.0, 31.0, 35.5, 60.0, 61.0, 90.5, 300.0, 330.5])).map(list)
-    other = st.one_of(st.tuples(st.just("cut"), st.integers(0, 3)).map(list), st.tuples(st.just("unreg"), st.integers(0, 3)).map(list),
+    bcr = st.tuples(st.just("bc-renewal"), st.integers(0, 30), st.integers(0, 3)).map(list)
+    other = st.one_of(bcr, bcr, st.tuples(st.just("cut"), st.integers(0, 3)).map(list), st.tuples(st.just("unreg"), st.integers(0, 3)).map(list),
                       st.tuples(st.just("delete"), st.integers(0, 3)).map(list), st.tuples(st.just("readfdt"), st.integers(0, 4)).map(list))
     edge = st.tuples(st.just("edge"), st.integers(0, 3), st.sampled_from(["ttl", "ttl+5", "ttl+30", "ttl+31", "2ttl", "3ttl"]), st.sampled_from([-1.5, -0.5, 0.0, 0.5, 1.5, 7.25])).map(list)
     return st.lists(st.one_of(bc, bc, bc, bc, adv, adv, edge, edge, other), min_size=3, max_size=30)
